@@ -5,3 +5,33 @@ True iff the failing case is an instance of that specific finding (strict: see D
 def kf_c03_torn_batch(component, script, impl, problems):
     """only: the newest log file CUT (truncated, not corrupted) strictly inside the record group of one batch"""
     return component == 'walfault' and bool(problems) and all(p.startswith('torn batch: log cut at byte') for p in problems)
+
+
+def config_utf8_replaced(component, script, impl, problems):
+    """KF-C20-utf8: a string field assigned bytes that are not valid UTF-8 validates, is saved, and loads back with each
+    invalid byte replaced by U+FFFD. Matches only if EVERY problem of the case is exactly such a replacement of a value the
+    script assigned (any other difference, a rejected save, a failed load ... is not covered)."""
+    import re
+    from oracledefs import config as C
+    if component != 'config' or not problems:
+        return False
+    assigned = set()
+    for l in script:
+        w = l.split()
+        if len(w) == 3 and w[0] == 'set' and w[2].startswith('s:') and w[2] != 's:=':
+            try:
+                raw = bytes.fromhex(w[2][2:])
+            except ValueError:
+                return False
+            if not C.go_valid_utf8(raw):
+                assigned.add((w[1], w[2][2:]))
+    if not assigned:
+        return False
+    for p in problems:
+        m = re.match(re.escape(C.UTF8_TAG) + r' field (\w+) stored=([0-9a-f]+) loaded=([0-9a-f]+) ', p)
+        if not m or (m.group(1), m.group(2)) not in assigned:
+            return False
+        raw = bytes.fromhex(m.group(2))
+        if C.go_valid_utf8(raw) or C.go_json_string(raw).hex() != m.group(3):
+            return False
+    return True
